@@ -126,12 +126,15 @@ func probFaults(r *rand.Rand, p *ProbPlan) {
 	if p.Variant == "nofault" || (!deadlines && r.IntN(100) >= 35) {
 		return
 	}
-	for i, n := 0, 1+r.IntN(2); i < n; i++ {
-		p.Faults = append(p.Faults, ProbFault{Kind: pick(r, "reset", "eof", "reset-after-exec", "eof-mid-reply", "stall", "stall"),
-			AtStep: r.IntN(120), Pick: r.IntN(4), DurMs: pick(r, 200, 2000, 30000)})
-	}
-	p.SendBuf = pick(r, 0, 0, 64, 1024)
+	// one fault per plan: a second one can hit the replacement connection during its HELLO handshake, and how fast the
+	// caller waiting for that dead pipe gets on depends on a clean-up goroutine of rueidis that polls once per fake
+	// millisecond under the simulator (seen in the determinism self-test: an idle tick more or less)
+	p.Faults = append(p.Faults, ProbFault{Kind: pick(r, "reset", "eof", "reset-after-exec", "eof-mid-reply", "stall", "stall"),
+		AtStep: r.IntN(120), Pick: r.IntN(4), DurMs: pick(r, 200, 2000, 30000)})
 	if !deadlines {
+		// no socket send-buffer limit either: with a writer goroutine blocked in Write, which of the queued callers a
+		// connection reset fails in the same step is decided inside rueidis by the Go runtime (seen in the
+		// determinism self-test), and the verif yield hooks do not cover that herd
 		return
 	}
 	p.SendBuf = pick(r, 64, 256)
@@ -214,6 +217,11 @@ func startProb(p *ProbPlan, out *Outcome, prop string, build func(pr *probRun, c
 				opt.PipelineMultiplex = p.Multiplex // replay of hand-written plans only; generated plans leave it at 0
 			}
 			opt.DisableCache = true
+			// the default retry delay adds jitter from util.FastRand (one shared counter in the verif seam): two read-only
+			// commands failed by the same connection loss would draw their jitter in runtime order. Same back-off, no jitter.
+			opt.RetryDelay = func(attempts int, _ rueidis.Completed, _ error) time.Duration {
+				return min(time.Second, time.Duration(1<<min(20, attempts))*time.Microsecond)
+			}
 			// small queues and buffers: the defaults (1024 slots, 0.5 MB buffers per connection) cost more to allocate
 			// than a whole run; arguments of ~1000 indexes still span several writes
 			opt.RingScaleEachConn = 7
